@@ -46,7 +46,17 @@ def A1_inventory(rep, flow):
     class_names = {}
     for c, n in inv["class"]:
         class_names.setdefault(n, []).append(c)
-    mod_names = {(m.name, n) for m, n in inv["module"]}
+    # an instance of a class defined in the repository is judged through its own methods (interpreted by the A3/A5/A2
+    # rules), not by the names of the calls made on it
+    def _repo_instance(m, n):
+        for v in m.assigns.get(n, []):
+            if isinstance(v, ast.Call):
+                r = prog.lookup_global(m, ast.unparse(v.func).split(".")[0])
+                if r and r[0] == "class":
+                    return True
+        return False
+    mod_names = {(m.name, n) for m, n in inv["module"] if not _repo_instance(m, n)}
+    rep.analysed["A1 module-level instances of repository classes (judged through their methods)"] = [f"{m.name}.{n}" for m, n in inv["module"] if _repo_instance(m, n)]
     # syntactic misuse: stores / mutators / in-place ops on class tables anywhere, on module bindings outside the cache idiom
     for m in prog.modules.values():
         for f in m.all_funcs:
